@@ -21,7 +21,9 @@ Inductive op :=
 | OCreate (i : nat)            (* it_i = q_i.evaluate() *)
 | ONext (i : nat) (exhausts : bool)    (* next(it_i); [exhausts] = the generator finishes during this resumption *)
 | OClose (i : nat)             (* it_i.close() *)
-| ODrop (i : nat).             (* the last reference to it_i is dropped (finalisation = close) *)
+| ODrop (i : nat)              (* the last reference to it_i is dropped (finalisation = close) *)
+| OThe (raises : bool).        (* a the(...) query evaluated here; [raises]: it fails (no / several solutions) and the exception is
+                                  handled on the spot, inside whatever blocks are open *)
 
 Inductive istate := IFresh | ISusp (saved : omode) (holds : bool) | IDone.
 (* holds = the suspended generator sits inside `with symbolic_mode(None)` and will write [saved] when it leaves it *)
@@ -85,6 +87,8 @@ Definition step (s : state) (o : op) : state :=
       | Some IFresh => set_iter s i IDone          (* a generator that never started runs no finally block *)
       | _ => s
       end
+  | OThe _ => s      (* The.evaluate switches the mode off inside a `with symbolic_mode(None)` block (Generated.the_mode_off) or not
+                        at all: either way whatever it did is undone on every exit, the exceptional ones included *)
   end.
 
 Definition run (ops : list op) : state := fold_left step ops init.
